@@ -31,7 +31,7 @@ add("C04", "harness", "exploration", "stateful property-based testing: generated
     "Generated histories of next / records() / read_record_set / read_record_set_exact / seek / into_records on one reader with three reusable record-set slots, checked after every step against the strict cursor model (exactly once, in order, equal content, batch-size rules, untouched slots unchanged, error only after all preceding records).",
     MODEL_NOTE)
 add("C05", "harness", "exploration", "stateful property-based testing: seek-heavy generated histories against reference coordinates (proptest)",
-    "Seek-heavy histories (to every record, from every reader state, in-buffer and real seeks, positions from the model and positions reported by the reader) checked against the capacity-free coordinates of the reference model; position after next(), after set reads, and the stream after each seek.",
+    "Seek-heavy histories (to every record, from every reader state, in-buffer and real seeks, positions from the model and positions reported by the reader) checked against the capacity-free coordinates of the reference model; position after next(), after set reads, and the stream after each seek. Sub-check seek-after-invalid-start: the reader state 'stopped with InvalidStart' (blank lines + preamble lines + well-formed FASTA body), then seeks to the body's records by their true coordinates.",
     MODEL_NOTE)
 add("C06", "harness", "exploration", "property-based testing with fault injection: generated histories, refusing policies and injected source errors against a validity predicate (proptest) + libFuzzer target with the same predicate (thorough)",
     "Widest domain: soups, mutated and out-of-domain inputs, refusing policies, one-byte chunks, injected read/seek errors (one-shot and sticky), calls after errors and after end, set iteration after failed fills. Validity predicate: no panic, no livelock (deterministic step budget), every record handed out or held by a set is a record of the input, in file order.",
